@@ -3,6 +3,7 @@ import Driver.Suites.Blocks
 import Driver.Suites.Rm
 import Driver.Suites.Wscap
 import Driver.Suites.Bucket
+import Driver.Suites.Sem
 /-! Table of suites known to the driver.  One line per suite (merge=union friendly). -/
 namespace Driver
 def registry : List Suite := [
@@ -10,5 +11,6 @@ def registry : List Suite := [
   Suites.Rm.suite,
   Suites.Wscap.suite,
   Suites.Bucket.suite,
+  Suites.Sem.suite,
 ]
 end Driver
